@@ -491,10 +491,36 @@ def check_corruption(ctx, case, thorough=False):
         Ts = {p['name']: p['T'] for p in spec['params']}
         cands = [(label, data, None) for label, data in corruptions(raw, thorough)]
         cands += [(label, json.dumps(obj).encode(), obj) for label, obj in structural(good)]
+        # the file is there, but can not be read (access rights, I/O error of the medium)
+        cands += [('unreadable-EACCES', raw, None), ('unreadable-EIO', raw, None)]
         for label, data, obj in cands:
             ctx.ev()
             with open(file_path(workdir), 'wb') as f:
                 f.write(data)
+            if label.startswith('unreadable'):
+                import builtins
+                orig_open, orig_io_open, target = builtins.open, io.open, os.path.realpath(file_path(workdir))
+
+                def deny(file, mode='r', *args, _label=label, _orig=orig_open, _target=target, **kwds):
+                    if not any(c in mode for c in 'wax+') and isinstance(file, (str, os.PathLike)) and os.path.realpath(file) == _target:
+                        raise PermissionError(13, 'Permission denied', str(file)) if _label.endswith('EACCES') else OSError(5, 'Input/output error', str(file))
+                    return _orig(file, mode, *args, **kwds)
+                builtins.open = io.open = deny
+                try:
+                    try:
+                        m2 = new_module(cls, spec, workdir, None)
+                    finally:
+                        builtins.open, io.open = orig_open, orig_io_open
+                except Exception as e:   # noqa
+                    ctx.finding(f'corrupt:startup-prevented:{label}:{type(e).__name__}', dict(case, corruption={'label': label}), repr(e)[:200])
+                    continue
+                ctx.label(f'corrupt:{label}')
+                bad = [p['name'] for p in spec['params'] if rm.canon(getattr(m2, p['name'])) != defaults[p['name']]]
+                if bad:
+                    ctx.finding(f'corrupt:unreadable-file-applied:{label}', dict(case, corruption={'label': label}), repr(bad))
+                else:
+                    ctx.ok('startup-with-unreadable-file')
+                continue
             sub = dict(case, corruption={'label': label, 'data': data[:2000].decode('latin-1'), 'length': len(data)})
             try:
                 parsed = json.loads(data.decode('utf-8'))
